@@ -48,6 +48,9 @@ def compile_and_import(pkg_dir: Path, root: Path, package: str) -> list[str]:
             problems.append(f"{p.relative_to(root)}: SyntaxError {e.msg} line {e.lineno}")
     if problems:
         return problems
+    problems += dangling_imports(pkg_dir)
+    if problems:
+        return problems
     env = dict(os.environ, PYTHONDONTWRITEBYTECODE="1")
     pr = subprocess.run([PY, "-c", _IMPORT_ALL, str(pkg_dir.parent), package], capture_output=True, text=True, env=env, timeout=300)
     for ln in pr.stdout.splitlines():
@@ -767,3 +770,42 @@ def option_effects(tier: str = "quick", known: list | None = None, **_: Any) -> 
 def replay_option_effect(w: dict) -> dict:
     probs = option_effect_one(w["input"]["option"])
     return {"reproduced": bool(probs), "observed": probs[:4]}
+
+
+def dangling_imports(pkg_dir: Path) -> list[str]:
+    """Every `from ..models.X import Y` / `from ...models.X import Y` anywhere in a generated module (top level,
+    TYPE_CHECKING block or inside a function) must name a module file that exists and a name it defines."""
+    import ast
+
+    defined: dict[str, set] = {}
+    mdir = pkg_dir / "models"
+    for p in mdir.glob("*.py"):
+        try:
+            tree = ast.parse(p.read_text(encoding="utf-8"))
+        except SyntaxError:
+            continue
+        names = set()
+        for node in tree.body:
+            if isinstance(node, (ast.ClassDef, ast.FunctionDef)):
+                names.add(node.name)
+            elif isinstance(node, ast.Assign):
+                names |= {t.id for t in node.targets if isinstance(t, ast.Name)}
+            elif isinstance(node, ast.AnnAssign) and isinstance(node.target, ast.Name):
+                names.add(node.target.id)
+        defined[p.stem] = names
+    problems = []
+    for p in pkg_dir.rglob("*.py"):
+        try:
+            tree = ast.parse(p.read_text(encoding="utf-8"))
+        except SyntaxError:
+            continue
+        for node in ast.walk(tree):
+            if isinstance(node, ast.ImportFrom) and node.module and node.module.startswith("models.") and node.level >= 1:
+                mod = node.module.split(".", 1)[1]
+                if mod not in defined:
+                    problems.append(f"{p.relative_to(pkg_dir)} imports from models.{mod}, which was not generated")
+                else:
+                    for a in node.names:
+                        if a.name not in defined[mod]:
+                            problems.append(f"{p.relative_to(pkg_dir)} imports {a.name} from models.{mod}, which does not define it")
+    return sorted(set(problems))
